@@ -34,32 +34,43 @@ func (o *OracleC14) v(h int64, oracle, site, class, f string, a ...any) *Violati
 
 var e12 = big.NewInt(1_000_000_000_000)
 
-// thresholdAt: the two-thirds threshold of the checkpoint in force at a report's time (latest checkpoint not after it).
+// thresholdAt: the two-thirds threshold of the checkpoint in force at a report's time. A checkpoint recorded in the
+// very block that created the aggregate carries the same millisecond: "in force at report time" can be read with or
+// without it, so the smaller of the two readings is what a claim must at least reach.
 func thresholdAt(v *View, tsMs uint64) (uint64, bool) {
 	bk := v.n.App.BridgeKeeper
 	latest, err := bk.LatestCheckpointIdx.Get(v.ctx)
 	if err != nil {
 		return 0, false
 	}
-	var best uint64
-	found := false
+	var bestLE, bestLT uint64
+	foundLE, foundLT := false, false
 	for i := uint64(0); i <= latest.Index; i++ {
 		t, err := bk.ValidatorCheckpointIdxMap.Get(v.ctx, i)
 		if err != nil {
 			continue
 		}
-		if t.Timestamp <= tsMs && (!found || t.Timestamp >= best) {
-			best, found = t.Timestamp, true
+		if t.Timestamp <= tsMs && (!foundLE || t.Timestamp >= bestLE) {
+			bestLE, foundLE = t.Timestamp, true
+		}
+		if t.Timestamp < tsMs && (!foundLT || t.Timestamp >= bestLT) {
+			bestLT, foundLT = t.Timestamp, true
 		}
 	}
-	if !found {
+	if !foundLE {
 		return 0, false
 	}
-	p, err := bk.ValidatorCheckpointParamsMap.Get(v.ctx, best)
+	p, err := bk.ValidatorCheckpointParamsMap.Get(v.ctx, bestLE)
 	if err != nil {
 		return 0, false
 	}
-	return p.PowerThreshold, true
+	thr := p.PowerThreshold
+	if foundLT && bestLT != bestLE {
+		if q, err := bk.ValidatorCheckpointParamsMap.Get(v.ctx, bestLT); err == nil && q.PowerThreshold < thr {
+			thr = q.PowerThreshold
+		}
+	}
+	return thr, true
 }
 
 func (o *OracleC14) AfterBlock(c *Chain, b *BlockCtx) []*Violation {
@@ -329,9 +340,40 @@ func (o *OracleC14) claimProbes(c *Chain, b *BlockCtx, v *View, byQ map[string][
 	ms := bridgekeeper.NewMsgServerImpl(app.BridgeKeeper)
 	creator := c.Accounts.Addr(0).String()
 	supply := func(ctx sdk.Context) *big.Int { return app.BankKeeper.GetSupply(ctx, Denom).Amount.BigInt() }
+	// counterfactual branch: the same state with one more validator-set checkpoint, later than every aggregate, whose
+	// threshold is 1 (what a large stake exit after the report would record). The threshold "in force at report time"
+	// does not change by it, so no claim may become possible that the real state refuses for lack of power.
+	later, _ := v.ctx.CacheContext()
+	bk := app.BridgeKeeper
+	haveLater := false
+	if latest, err := bk.LatestCheckpointIdx.Get(later); err == nil {
+		if _, err := bk.ValidatorCheckpointIdxMap.Get(later, latest.Index); err == nil {
+			ts := uint64(b.Time.UnixMilli()) + 1
+			nx := latest.Index + 1
+			e1 := bk.ValidatorCheckpointParamsMap.Set(later, ts, bridgetypes.ValidatorCheckpointParams{Checkpoint: make([]byte, 32), ValsetHash: make([]byte, 32), Timestamp: ts, PowerThreshold: 1})
+			e2 := bk.ValidatorCheckpointIdxMap.Set(later, nx, bridgetypes.CheckpointTimestamp{Timestamp: ts})
+			e3 := bk.ValsetTimestampToIdxMap.Set(later, ts, bridgetypes.CheckpointIdx{Index: nx})
+			e4 := bk.LatestCheckpointIdx.Set(later, bridgetypes.CheckpointIdx{Index: nx})
+			haveLater = e1 == nil && e2 == nil && e3 == nil && e4 == nil
+		}
+	}
 	for id := uint64(0); id <= 6; id++ {
 		l := byQ[string(QueryID(BridgeQueryData(true, id)))]
 		for k := 0; k < len(l) && k < 4; k++ {
+			if haveLater {
+				cf, _ := later.CacheContext()
+				err := probeMsg(cf, func(x sdk.Context) error {
+					_, e := ms.ClaimDeposits(x, &bridgetypes.MsgClaimDepositsRequest{Creator: creator, DepositIds: []uint64{id}, Indices: []uint64{uint64(k)}})
+					return e
+				})
+				o.count("probe_claims_with_later_checkpoint")
+				if err == nil {
+					if thr, okT := thresholdAt(v, l[k].TsMs); okT && l[k].Agg.ReporterPower < thr {
+						out = append(out, o.v(b.H, "claim-probe", "ClaimDeposit", "claimed-below-threshold:depends-on-later-checkpoint", "deposit %d index %d: aggregate power %d is below the threshold %d in force at report time; the claim is refused on the real state but accepted once a later checkpoint with a lower threshold exists", id, k, l[k].Agg.ReporterPower, thr))
+						return out
+					}
+				}
+			}
 			cctx, _ := v.ctx.CacheContext()
 			s0 := supply(cctx)
 			err := probeMsg(cctx, func(x sdk.Context) error {
